@@ -14,7 +14,9 @@ use std::path::Path;
 use std::sync::atomic::{AtomicU64, AtomicUsize, Ordering};
 use std::sync::{Arc, Weak};
 use sv_parser::{Define, DefineText};
-use sv_parser_parser::verif::{self, MemoStats, Sim};
+use nom_packrat::verif as memo;
+use nom_packrat::verif::MemoStats;
+use sv_parser_parser::verif::{self, Sim};
 use sv_parser_parser::{Span, SpanInfo};
 
 // ---------------------------------------------------------------------------------------------
@@ -186,7 +188,7 @@ impl SimCtx {
         }
         match &self.shared.sched {
             Some(s) => {
-                let (d, v, _) = verif::residue();
+                let (d, v) = verif::residue();
                 s.set_inflight(self.tid, d > 0 || v > 0);
                 if s.yield_point(self.tid, site).is_err() {
                     std::panic::panic_any(BudgetExceeded);
@@ -319,20 +321,27 @@ impl RunOutcome {
 
 thread_local!(static CUR_KNOBS: RefCell<(Option<usize>, bool)> = RefCell::new((None, false)));
 
+/// (directive stack depth, keyword-version stack depth, memo entries) left on this thread
+fn residue3() -> (usize, usize, usize) {
+    let (d, v) = verif::residue();
+    (d, v, memo::len())
+}
+
 fn apply_memo_knobs(call: &Call) {
     CUR_KNOBS.with(|k| {
         let mut k = k.borrow_mut();
         if k.1 != call.flag_aware {
-            verif::set_flag_aware(call.flag_aware);
+            memo::set_flag_aware(call.flag_aware);
             k.1 = call.flag_aware;
         }
         if k.0 != call.memo_capacity {
+            // None = the capacity the library declares (1024); Some(0) = unbounded; Some(n) = n entries
             let cap = match call.memo_capacity {
-                None => Some(verif::SHIPPED_CAPACITY),
-                Some(0) => None,
-                Some(n) => Some(n),
+                None => None,
+                Some(0) => Some(None),
+                Some(n) => Some(Some(n)),
             };
-            verif::set_capacity(cap);
+            memo::set_capacity(cap);
             k.0 = call.memo_capacity;
         }
     });
@@ -360,15 +369,21 @@ fn exercise_tree(tree: &sv_parser::SyntaxTree) -> Result<(), String> {
     if depth != 0 || enters != plain.len() {
         return Err(format!("event iteration unbalanced: depth {} enters {} plain {}", depth, enters, plain.len()));
     }
+    // tokens must lie inside the text before anything slices it unchecked (Display/Debug use get_str)
+    for n in &plain {
+        if let RefNode::Locate(l) = n {
+            if text.get(l.offset..l.offset.wrapping_add(l.len)).is_none() {
+                return Err(format!("token {:?} outside text / off char boundary", l));
+            }
+        }
+    }
     let _ = format!("{}", tree);
     let _ = format!("{:?}", tree);
     for n in &plain {
         let _ = crate::locate_dispatch::locate_try_from(n);
         if let RefNode::Locate(l) = n {
-            if text.get(l.offset..l.offset + l.len).is_none() {
-                return Err(format!("token {:?} outside text / off char boundary", l));
-            }
             let _ = tree.get_origin(l);
+            let _ = tree.get_str(*l);
         }
     }
     Ok(())
@@ -521,8 +536,8 @@ fn run_call(ctx: &Arc<SimCtx>, tid: usize, index: usize, call: &Call, opts: &Exe
     let shared = &ctx.shared;
     shared.vfs.begin_call(tid, index, &call.faults);
     apply_memo_knobs(call);
-    verif::reset_memo_stats();
-    let residue_before = verif::residue();
+    memo::reset_stats();
+    let residue_before = residue3();
     let steps0 = ctx.steps.load(Ordering::Relaxed);
     let sites0: Vec<u64> = ctx.sites.iter().map(|a| a.load(Ordering::Relaxed)).collect();
     ctx.file_depth.store(0, Ordering::Relaxed);
@@ -567,8 +582,8 @@ fn run_call(ctx: &Arc<SimCtx>, tid: usize, index: usize, call: &Call, opts: &Exe
         budget_exceeded,
         steps: ctx.steps.load(Ordering::Relaxed) - steps0,
         residue_before,
-        residue_after: verif::residue(),
-        memo: verif::memo_stats(),
+        residue_after: residue3(),
+        memo: memo::stats(),
         max_file_depth: ctx.max_file_depth.load(Ordering::Relaxed),
         max_macro_depth: ctx.max_macro_depth.load(Ordering::Relaxed),
         max_nest: ctx.max_nest.load(Ordering::Relaxed),
